@@ -674,6 +674,21 @@ fn main() {
                         }
                     }
                 }
+                // C07: barrier backtracking of the combined step under dual scaling
+                {
+                    let mut nbt = 0;
+                    for e in o.events.iter() {
+                        if let Event::BarrierBt { alpha_init, step, answers, alpha_out } = e {
+                            nbt += 1;
+                            if nbt > 30 { break; }
+                            bump(&mut stats, if answers.len() > 1 { "branch_barrier_backtracked" } else { "branch_barrier_first_try" });
+                            let ans: Vec<&str> = answers.iter().map(|b| cb(*b)).collect();
+                            sink.case("barrier_bt", json!({"label": p.label, "settings": cfg.json(), "problem": p.to_json(), "call": nbt, "alpha_init": alpha_init, "trials": answers.len()}),
+                                format!("(c_barrier_bt {} {} {} [{}])", cfl(*step), cfl(*alpha_init), cfl(*alpha_out), ans.join("; ")),
+                                &["C07"]);
+                        }
+                    }
+                }
                 // C07: interior snapshots (every cone kind: Solver/InteriorAll.v)
                 let mut nsnap = 0;
                 for e in o.events.iter() {
